@@ -58,7 +58,7 @@ PROPS = {
         assumptions=['symbolic cryptography in the mint model: a C field is genuine iff it is the term CSig keyset amount secret (one-more unforgeability of BDHKE, collision resistance of hash_to_curve); the algebra itself is C10', 'each storage.MintDB call is atomic and durable once it returns (SQLite); PRIMARY KEY/UNIQUE as in the migrations', 'the Lightning backend is the scripted lightning.Client of the harness; real LND/CLN adapters are not executed']),
     'C06': dict(
         file='Props/C06.v',
-        streams=[('c06-hist', 'tie')],
+        streams=[('c06-hist', 'tie'), ('c06-http', 'tie')],
         assumptions=['symbolic cryptography in the mint model: a C field is genuine iff it is the term CSig keyset amount secret (one-more unforgeability of BDHKE, collision resistance of hash_to_curve); the algebra itself is C10', 'each storage.MintDB call is atomic and durable once it returns (SQLite); PRIMARY KEY/UNIQUE as in the migrations', 'the Lightning backend is the scripted lightning.Client of the harness; real LND/CLN adapters are not executed']),
     'C09': dict(
         file='Props/C09.v',
@@ -80,6 +80,13 @@ PROPS = {
         file='Props/C07.v',
         streams=[('c07-cuts', 'tie')],
         assumptions=MINT_ASSUME + ["a crash is modelled as the process stopping between two storage/Lightning calls; SQLite's own crash behaviour (torn pages, fsync) is assumed, not modelled"]),
+    'C20': dict(
+        file='Props/C20.v',
+        streams=[('c20-http', 'tie')],
+        assumptions=[
+            'request abstraction: the harness tells the model what encoding/json makes of each body (class + decoded operation) and which exact bytes method/URL/body were; bodies over 4096 bytes are identified by SHA-256',
+            'no NUL byte in req.Method / req.URL.String() (net/http rejects them); cache TTL (300 s) not modelled, histories last seconds; symbolic blind signatures and scripted Lightning backend as for the mint model',
+        ]),
     'C10': dict(
         file='Props/C10.v',
         streams=[('c10-bdhke', 'pure')],
@@ -125,6 +132,7 @@ LEVEL_TEXT = {
     'C10': dict(text="Coq theorems over an abstract prime-order group (BDHKE round trip, independence of r, wrong key/secret/point rejected, DLEQ completeness for mint and wallet, soundness with a unique challenge, single-field tamper theorems as hash-collision reductions), the same definitions instantiated at an executable secp256k1 and compared bit for bit with crypto/bdhke.go and nut12", note="group laws assumed for secp256k1 (not proved here); HashE arbitrary; see TRUSTED.md", design_ref="DESIGN.md §5 C10"),
     'C11': dict(text="Coq theorems: implementation-shaped models of hash_to_curve, DeriveKeysetId and the NUT-13 derivation equal declarative specifications transcribed from NUT-00/02/13 and BIP32, for all inputs; executable SHA-256/HMAC-SHA512/secp256k1/BIP32 in Coq compared bit for bit with the Go functions", note="primitives identified with SHA-2/secp256k1 by correspondence and test vectors (partial); see TRUSTED.md", design_ref="DESIGN.md §5 C11"),
     'C18': dict(text="Coq theorems on the wallet's selection arithmetic for every tie-break of the unstable sorts: AmountSplit sums, selection soundness, exact hand-over without fees, removal from the balance; the fee-inclusive exactness is characterised exactly (partial) and refuted with a computed witness that is replayed on two real wallets; liveness proved for active-keyset wallets and refuted otherwise; tied to /repo by differential execution of the selection helpers and end-to-end Send/Receive", note="sort.Slice tie-breaks quantified over; findings listed in known_findings.json", design_ref="DESIGN.md §5 C18"),
+    'C20': dict(text="Coq theorems over a model of server.go layered on the mint state machine (status/shape/code per outcome, no internal code ever, NUT-19 replay and only-replay with injectivity of the separated key, refutation for the unseparated key), tables read from the current Go sources by the translator; tied to /repo by differential execution through the real handler with hand-built JSON", note=_MINT_NOTE + '; net/http and gorilla/mux routing, encoding/json trusted', design_ref='DESIGN.md §5 C20'),
     'C12': _COND, 'C13': _COND,
 }
 NOT_APPLICABLE = {}
